@@ -147,6 +147,24 @@ def gen_set(r, sh, lines, iface, objtok, names, malformed):
             cur[name] = (nt, cnt)
 
 
+def hash_colliding(r, base):
+    """a different name with the same additive 4-byte-word hash as base (len(base) >= 8): 4-byte blocks permuted, or
+    bytes at the same offset exchanged between two blocks"""
+    b = bytearray(base.encode())
+    nblk = len(b) // 4
+    for _ in range(8):
+        c = bytearray(b)
+        i, j = r.sample(range(nblk), 2)
+        if r.random() < 0.6:
+            c[4 * i:4 * i + 4], c[4 * j:4 * j + 4] = c[4 * j:4 * j + 4], c[4 * i:4 * i + 4]
+        else:
+            o = r.randrange(4)
+            c[4 * i + o], c[4 * j + o] = c[4 * j + o], c[4 * i + o]
+        if c != b:
+            return c.decode()
+    return base + "x"
+
+
 def sd_obj(r, sh, dims_ok=True):
     if not sh.vars or r.random() < 0.2:
         return "F"
@@ -164,6 +182,13 @@ def gen_history(r, name, malformed=False):
     hn = NamePool(r, 64)
     dsnames = [r.choice(["ds", "data", "T", "lat", "x"]) + s for s in ["", "1", "10", "_b", ""]]
     dimpool = ["lat", "lon", "x", "time", "x1", "lat"] + dsnames[:2]
+    # dimension-heavy histories: few sizes, names whose NC_string hash (sum of 4-byte words) collides
+    dimheavy = r.random() < 0.22
+    sizes = [1, 2, 3, 4, 5, 7]
+    if dimheavy:
+        base = r.choice(["DateTime", "lat_lon_", "abcdWXYZ", "TimeDateZone", "north_south_east"])
+        dimpool = [base, hash_colliding(r, base), hash_colliding(r, base), base, "lat"]
+        sizes = [r.choice([2, 3, 6])] * 3 + [r.choice([2, 3, 4])]
     want_sd = r.random() < 0.85
     want_h = r.random() < 0.8 or not want_sd
     if want_sd:
@@ -190,7 +215,7 @@ def gen_history(r, name, malformed=False):
             if (a < 0.16 or not sh.vars) and wr and len(sh.vars) < 8:
                 rank = r.choice([1, 1, 2, 2, 3])
                 nt = r.choice(NTS)
-                dims = [r.choice([1, 2, 3, 4, 5, 7]) for _ in range(rank)]
+                dims = [r.choice(sizes) for _ in range(rank)]
                 L.append("sd.create %s %d %d %s" % (hx(r.choice(dsnames)), nt, rank, " ".join(map(str, dims))))
                 sh.vars.append(("sds", rank, nt, dims))
                 continue
@@ -203,6 +228,25 @@ def gen_history(r, name, malformed=False):
                 kind, rank, nt, dims = sh.vars[i]
                 sz = NTSZ[nt]
                 p = r.random()
+                if dimheavy and r.random() < 0.55:
+                    p = 0.54 + 0.16 * r.random()          # mostly SDsetdimname
+                if r.random() < 0.10:
+                    # the valid range stored the netCDF way (valid_max / valid_min), possibly beside a valid_range of
+                    # another type class; SDgetrange then takes its fall-back branch
+                    pre = []
+                    if r.random() < 0.3:
+                        fnt = r.choice([n for n in NTS if NTSZ[n] != sz or (n in (5, 6)) != (nt in (5, 6))])
+                        pre.append("sd.setattr V%d %s %d 2 %s" % (i, hx("valid_range"), fnt, hx(rdata(r, 2 * NTSZ[fnt]))))
+                    two = [("valid_max", rdata(r, sz)), ("valid_min", rdata(r, sz))]
+                    if r.random() < 0.5:
+                        two.reverse()
+                    wnt = nt if r.random() < 0.9 else r.choice(NTS)
+                    L.extend(pre)
+                    for nm_, dat in two:
+                        cnt_ = 1 if r.random() < 0.9 else 2
+                        L.append("sd.setattr V%d %s %d %d %s" % (i, hx(nm_), wnt, cnt_, hx((dat * cnt_)[:cnt_ * NTSZ[wnt]] if NTSZ[wnt] <= sz else rdata(r, cnt_ * NTSZ[wnt]))))
+                    L.append("sd.getrange V%d" % i)
+                    continue
                 if p < 0.18:
                     ss = [r.choice(["-", "e", hx(rtext(r, r.choice([1, 3, 8, 20, 40])))]) for _ in range(4)]
                     L.append("sd.setdatastrs V%d %s" % (i, " ".join(ss)))
